@@ -13,7 +13,7 @@ from __future__ import annotations
 import ast
 from typing import Dict, FrozenSet, List, Optional, Set, Tuple
 
-from ..flow import defuse
+from ..flow import defuse, names_in
 from ..guards import src
 from ..index import ClassInfo, FuncInfo, Index, call_name, dotted, walk_no_nested
 from ..report import Results
@@ -290,3 +290,117 @@ def run_roles(res: Results, idx: Index, plugins: List[Tuple[ClassInfo, ast.expr]
     tn = Tainter(idx, f, _seed_names(f))
     got = [(tuple(sorted(tn.of(e.args[0]))), tuple(sorted(tn.of(e.args[1])))) for e in sorted(_emissions(f, {"Sub": SAME}), key=lambda e: e.lineno)]
     res.control("R-C01d", "Sub(a, b) is attributed (lhs, rhs) and Sub(b, a) (rhs, lhs); a dtype hint carries no taint", got == [((L,), (R,)), ((R,), (L,))], str(got))
+
+
+# ---------------------------------------------------------------------------------------------- R-C01f
+SHAPE_CHANGING = {"Reshape", "Expand", "Squeeze", "Unsqueeze", "Transpose", "Flatten"}
+SHAPE_READS = {"_shape_tuple", "_shape_dims", "_shape_dims_seq", "_static_shape", "shape_of", "_rank"}
+
+
+def shape_blind_unwrappers(idx: Index):
+    """Plugin helpers that walk back along producers through a fixed set of ops that includes shape-changing ones."""
+    out = []
+    for m in idx.product_modules():
+        if "/plugins/" not in m.rel or m.rel.endswith("_post_check_onnx_graph.py"):
+            continue
+        for fi in m.funcs.values():
+            loops = [w for w in walk_no_nested(fi.node) if isinstance(w, (ast.While, ast.For))]
+            if not loops:
+                continue
+            walks = any(isinstance(c, ast.Call) and ((isinstance(c.func, ast.Attribute) and c.func.attr == "producer") or (call_name(c) or "").split(".")[-1] in ("_producer", "_producer_node")) for c in walk_no_nested(fi.node))
+            if not walks:
+                continue
+            sets = [x for x in walk_no_nested(fi.node) if isinstance(x, ast.Set) and all(isinstance(e, ast.Constant) and isinstance(e.value, str) for e in x.elts)]
+            ops = {e.value for x in sets for e in x.elts}  # type: ignore[union-attr]
+            tested = any(isinstance(c, ast.Compare) and any(isinstance(o, (ast.In, ast.NotIn)) for o in c.ops) and "op_type" in src(c.left, 80) for c in walk_no_nested(fi.node))
+            if ops & SHAPE_CHANGING and tested:
+                out.append((fi, sorted(ops & SHAPE_CHANGING)))
+    return out
+
+
+def run_pattern_shape_checks(res: Results, idx: Index) -> None:
+    """A lowering that recognises `f(x) / g(reduce(x))`-style patterns by walking the denominator back through
+    Reshape / Expand forgets how the reduced value was broadcast.  Whoever consumes such a walk to pick an axis-
+    parameterised operator must look at a static shape on the broadcast path."""
+    from ..callgraph import get_callgraph
+    res.rule("R-C01f", "pattern matchers that walk back through Reshape / Expand consult a static shape before choosing an axis-parameterised operator", floor=1)
+    cg = get_callgraph(idx)
+    unwrappers = shape_blind_unwrappers(idx)
+    res.analysed["shape_blind_unwrappers"] = [f"{fi.module.rel}::{fi.qualname}" for fi, _ in unwrappers]
+    n = 0
+    for u, ops in unwrappers:
+        for cs in cg.callers_of(u):
+            f = cs.caller
+            if f is None or f is u:
+                continue
+            n += 1
+            key = f"{f.module.rel}::{f.qualname}::uses::{u.name}"
+            site = f"{f.module.rel}:{cs.call.lineno}"
+            reads_shape = any((isinstance(x, ast.Attribute) and x.attr == "shape") or (isinstance(x, ast.Call) and (call_name(x) or "").split(".")[-1] in SHAPE_READS) for x in walk_no_nested(f.node))
+            returns_axis = any("axis" in src(r.value, 200) or "axes" in src(r.value, 200) for r in walk_no_nested(f.node) if isinstance(r, ast.Return) and r.value is not None) or \
+                any(isinstance(c, ast.Call) and any(k.arg in ("axis", "axes") for k in c.keywords) for c in walk_no_nested(f.node))
+            if not returns_axis:
+                res.ok("R-C01f", site, key, "the walk's result does not select an axis", f.qualname)
+            elif reads_shape:
+                res.ok("R-C01f", site, key, f"walks through {ops} and checks a static shape before committing to an axis", f.qualname)
+            else:
+                res.violation("R-C01f", site, key, f"`{f.name}` matches a pattern by walking producers through {ops} (via {u.name}) and derives an operator axis from it without reading any static shape: how the reduced value was broadcast back (keepdims or trailing-axis alignment) is lost, so e.g. x / norm(x, axis=1) without keepdims is lowered as a per-row normalisation", f.qualname)
+    if n == 0 and unwrappers:
+        res.ok("R-C01f", f"{unwrappers[0][0].module.rel}:{unwrappers[0][0].node.lineno}", "unwrappers::unused", "shape-blind unwrap helpers exist but no caller derives an axis", "")
+
+
+# ---------------------------------------------------------------------------------------------- R-C01g
+INT_ONLY_JNP = {"bitwise_and", "bitwise_or", "bitwise_xor", "bitwise_not", "bitwise_left_shift", "bitwise_right_shift", "left_shift", "right_shift", "gcd", "lcm", "invert"}
+
+
+def run_mixed_dtype_operands(res: Results, idx: Index, plugins) -> None:
+    """jax.numpy-level binary plugins bind the user's raw arguments on their own primitive, so the two operands can
+    have different dtypes (an int32 array and the Python scalar 2.5) and abstract_eval returns the promoted dtype.
+    A lowering that materialises one operand with `prefer_np_dtype=<dtype of the OTHER operand>` forces the scalar into
+    the array's integer dtype: jnp.add(x_i32, 2.5) exports an int32 Add.  (For lax primitives both operands already
+    share a dtype, so the same code is harmless there.)"""
+    res.rule("R-C01g", "jax.numpy-level binary lowerings do not force one operand into the other operand's dtype", floor=3)
+    n = 0
+    for c, _expr in plugins:
+        if "/plugins/jax/numpy/" not in c.module.rel:
+            continue
+        if c.module.rel.rsplit("/", 1)[-1][:-3] in INT_ONLY_JNP:
+            continue  # integer-only functions: jax itself gives a weak Python int the array's dtype and rejects floats
+        lower = idx.resolve_method(c, "lower")
+        if lower is None:
+            continue
+        cands: List[FuncInfo] = []
+        if _seed_names(lower):
+            cands.append(lower)
+        else:
+            for call in walk_no_nested(lower.node):
+                if isinstance(call, ast.Call) and any(isinstance(a, ast.Name) and a.id == "eqn" for a in call.args):
+                    g = idx.resolve_func(c.module, call_name(call) or "", cls=c, scope=lower)
+                    if g is not None and _seed_names(g):
+                        cands.append(g)
+        for fi in cands:
+            seeds = _seed_names(fi)
+            if len(seeds) != 2:
+                continue
+            du = defuse(fi.node)
+            lhs_name = next(k for k, v in seeds.items() if v == frozenset({L}))
+            rhs_name = next(k for k, v in seeds.items() if v == frozenset({R}))
+            for call in walk_no_nested(fi.node):
+                if not (isinstance(call, ast.Call) and (call_name(call) or "").endswith("get_value_for_var") and call.args and isinstance(call.args[0], ast.Name)):
+                    continue
+                kw = next((k.value for k in call.keywords if k.arg == "prefer_np_dtype"), None)
+                if kw is None:
+                    continue
+                own = call.args[0].id
+                other = lhs_name if own == rhs_name else (rhs_name if own == lhs_name else None)
+                if other is None:
+                    continue
+                n += 1
+                names = du.closure(names_in(kw)) | names_in(kw)
+                key = f"{c.module.rel}::{c.name}::operand-dtype-forced::{own}"
+                site = f"{fi.module.rel}:{call.lineno}"
+                if other in names and own not in names:
+                    res.violation("R-C01g", site, key, f"{c.name}: `{src(call, 70)}` materialises `{own}` with the dtype of `{other}`; the jax.numpy-level primitive is bound with the caller's raw operands, so an integer array combined with a Python float (jnp.{c.module.rel.rsplit('/', 1)[-1][:-3]}(x_int32, 2.5)) is computed in the integer dtype although abstract_eval promised the promoted dtype", fi.qualname)
+                else:
+                    res.ok("R-C01g", site, key, "dtype preference does not come from the other operand alone", fi.qualname)
+    res.analysed["jnp_binary_dtype_preferences"] = n
